@@ -330,6 +330,9 @@ func c07Directed(c *Ctx) {
 		{{"commit", "r0", ""}, {"branch", "r0", "feature"}, {"newversion", "r0", ""}, {"commit", "c1", ""}, {"commit", "c2", ""}, {"merge", "c1,c2", ""}, {"branch", "r0", "feature"}},
 		// master: one child per branch, also after the child was extended
 		{{"commit", "r0", ""}, {"newversion", "r0", ""}, {"commit", "c1", ""}, {"newversion", "c1", ""}, {"newversion", "r0", ""}, {"branch", "r0", ""}},
+		// a merge whose parents are committed nodes of two different repos (either order, and with a third parent)
+		{{"newrepo", "", ""}, {"commit", "r0", ""}, {"commit", "c1", ""}, {"merge", "r0,c1", ""}, {"merge", "c1,r0", ""},
+			{"newversion", "r0", ""}, {"commit", "c2", ""}, {"branch", "r0", "side"}, {"commit", "c3", ""}, {"merge", "c2,c3,c1", ""}, {"merge", "c2,c3", ""}},
 	}
 	for _, sc := range scenarios {
 		OpenServer()
@@ -355,6 +358,8 @@ func c07Directed(c *Ctx) {
 		for _, st := range sc {
 			before := ms.implDump()
 			switch st.kind {
+			case "newrepo":
+				ms.after(c, "mgr.newrepo none", PostJSON("repos", map[string]string{"alias": "b", "description": "d"}), "root", before)
 			case "commit":
 				u := name(st.node)
 				ms.after(c, "mgr.commit "+hs(u), PostJSON("node/"+ms.realOf(u)+"/commit", map[string]string{"note": "n"}), "", before)
